@@ -182,6 +182,16 @@ func Yield() {
 	}
 }
 
+// YieldSlack is what an oracle reasoning "the client read this message that long ago, so it has
+// acted on it" must add when yield points cost simulated time: a message crosses a bounded
+// number of lock acquisitions between the reader and the event loop, and each may sleep.
+func YieldSlack() time.Duration {
+	if YieldP <= 0 {
+		return 0
+	}
+	return 40 * YieldSleepMax
+}
+
 var yields int64
 
 func Yields() int64 { return yields }
